@@ -774,6 +774,14 @@ def identity_with_raw_int(ctx, rule, quals):
             ctx.check(not raw, rule, '%s: identity comparison `%s` with an enumeration member of a value that can be a plain integer '
                       '(unpacked from the wire): never true for it' % (fi.qual, src(x)), key=(rule, 'identity-raw-int', fi.qual, src(members[0])),
                       site=ctx.site(fi, x))
+        # the same confusion the other way round: `.name` / `.value` of something that can be a plain integer is an AttributeError
+        for x in ast.walk(fi.node):
+            if isinstance(x, ast.Attribute) and x.attr in ('name', 'value') and isinstance(x.ctx, ast.Load) and isinstance(x.value, ast.Name):
+                t = ctx.res.expr_type(x.value, fi)
+                if any(isinstance(y, tuple) and y[0] == 'libobj' and str(y[1]).startswith('struct.') for y in t):
+                    n += 1
+                    ctx.bad(rule, (rule, 'member-attr-of-raw-int', fi.qual, src(x)), '%s: `%s` reads an enumeration attribute of a value that can be '
+                            'a plain integer unpacked from the wire (AttributeError)' % (fi.qual, src(x)), ctx.site(fi, x))
     return n
 
 
